@@ -806,7 +806,7 @@ class Ctx:
     """One execution of a harness (symbolic or concrete)."""
 
     def __init__(self, params=None, prefix=(), concrete_inputs=None, time_sort="int",
-                 query_timeout_ms=30000, max_decisions=4000, check_terms=True):
+                 query_timeout_ms=30000, max_decisions=4000, check_terms=True, isolate_checks=False):
         self.params = params or {}
         self.concrete = concrete_inputs is not None
         self.inputs_c = concrete_inputs or {}
@@ -836,6 +836,9 @@ class Ctx:
             self.solver = z3.Solver()
             self.solver.set("timeout", query_timeout_ms)
         self.qtimeout = query_timeout_ms
+        # obligations with nonlinear arithmetic are posed to a FRESH solver so that the incremental solver that
+        # decides branch feasibility keeps working on the (linear) path condition only
+        self.isolate_checks = isolate_checks
 
     # ---- solver plumbing -------------------------------------------------
     def _check(self, *extra):
@@ -1053,6 +1056,34 @@ class Ctx:
         if z3.is_true(c):
             self.n_discharged += 1
             return True
+        if self.isolate_checks:
+            s2 = z3.Solver()
+            s2.set("timeout", self.qtimeout)
+            s2.add(self.solver.assertions())
+            s2.add(z3.Not(c))
+            t0 = _time.perf_counter()
+            r = s2.check()
+            self.solver_s += _time.perf_counter() - t0
+            self.n_queries += 1
+            if r == z3.unsat:
+                self.n_discharged += 1
+                return True
+            if r == z3.unknown:
+                self.n_unknown += 1
+                self.unknown_labels.append(label)
+                return True
+            m = s2.model()
+            self.violations.append(
+                Violation(label, self._inputs_from(m), detail, self.decisions)
+            )
+            self.solver.add(c)
+            self.model_stale = True
+            rr = self._check()
+            if rr != z3.sat:
+                raise PathAbort("after-violation")
+            self.model = self.solver.model()
+            self.model_stale = False
+            return False
         self.solver.push()
         self.solver.add(z3.Not(c))
         r = self._check()
